@@ -193,8 +193,13 @@ func (c *Ctx) receiversDrain(fn *ssa.Function, ch ssa.Value) (bool, string) {
 // hands every caller an identity object of its own (identity.NewUser filled from this session's
 // bytes). An object that is also reachable from a cache or a package variable is shared between
 // requests: the login callback's SetAuthenticated(true) on it authenticates every other holder.
-func c13FreshIdentity(c *Ctx) {
-	rule := "C13/fresh-identity"
+func c13FreshIdentity(c *Ctx) { freshIdentityAs(c, "C13/fresh-identity") }
+
+// freshIdentityAs: the same rule under C04 and C12 — EnrichContext writes the request's client
+// address into the identity GetSessionIdentity returns, so an identity object shared between
+// overlapping requests of one session lets request B's address replace request A's before A's
+// token is minted or checked.
+func freshIdentityAs(c *Ctx, rule string) {
 	fn := c.Fn("cmd/rdpgw/web", "GetSessionIdentity")
 	key := shortFn(fn)
 	n := 0
